@@ -10,7 +10,8 @@ NOFAULT = '{[kind |-> "none", slot |-> 0, when |-> ""]}'
 TEXTCC = '<<"crlf", "lf", "trailws", "dots", "eq", "from", "bdry", "len75", "len76", "len77", "long", "utf8", "bin", "nul", "empty", "oneline", "rand">>'
 BASE = dict(MAXP='2', MAXE='1', MAXA='1', ENCS='{"qp", "b64", "8bit"}', PENCS='{""}', FENCS='{""}',
             CCS=TEXTCC, PRODS='<<"string", "writer", "chunk3">>', SRCS='<<"seeker", "reader", "file", "iofs">>',
-            ROTS='{0}', BOUNDARIES='{""}', DELS='{0}', HDRS='{<<>>}', PDESCS='{""}', FDESCS='{""}', FNAMES='{""}', FCIDS='{""}', OPSEQS='{<<"WriteTo">>}', FAULTS=NOFAULT, ROUNDTRIP='{FALSE}')
+            ROTS='{0}', BOUNDARIES='{""}', DELS='{0}', HDRS='{<<>>}', PDESCS='{""}', FDESCS='{""}', FNAMES='{""}', FCIDS='{""}', OPSEQS='{<<"WriteTo">>}', FAULTS=NOFAULT, ROUNDTRIP='{FALSE}',
+            SMIMES='{[key |-> "", inter |-> FALSE]}')
 
 
 def cfg(**kw):
@@ -141,13 +142,79 @@ STAGES.update({
 })
 
 
+NODEV = dict(DEV_CountUnwritten='FALSE', DEV_FoldTopLeaf='FALSE', DEV_NoReset='FALSE', DEV_NoResetOnError='FALSE',
+             DEV_FreshInnerBoundary='FALSE', DEV_CountSignaturePart='FALSE')
+
+
+def scfg(**kw):
+    c = cfg(OPSEQS='{<<"WriteTo", "WriteTo">>}', CCS='<<"crlf", "utf8", "dots", "eq", "trailws", "size300">>')
+    c.update(NODEV)
+    c.update(kw)
+    return c
+
+
+KEYS4 = '{[key |-> k, inter |-> i] : k \\in {"rsa", "ecdsa", "rsa384", "ecdsa384"}, i \\in BOOLEAN}'
+KEYS2 = '{[key |-> "rsa", inter |-> TRUE], [key |-> "ecdsa", inter |-> FALSE]}'
+KEYS2B = '{[key |-> "rsa", inter |-> FALSE], [key |-> "ecdsa", inter |-> TRUE]}'
+SINVS = ['Verifies', 'CounterClean', 'OneSignature', 'TypeOK', 'SEmit']
+INVS_BY_BASE = {'Smime': SINVS}
+SPEC_BY_BASE = {'Smime': 'SSpec'}
+SENS_INVS = ['Verifies', 'CounterClean']
+SHDR = ["genempty", "genmulti", "toignore", "ccignore", "ccsome", "preform", "subject", "gen", "fromname"]
+STAGES['C08'] = {
+    'quick': [
+        ('shapes-keys-inter', 'Smime', scfg(MAXP='2', MAXE='1', MAXA='1', SMIMES=KEYS4, ROTS='{0, 3}')),
+        ('encodings', 'Smime', scfg(MAXP='2', MAXE='1', MAXA='1', ENCS='{"qp"}', PENCS='{"", "b64", "8bit"}', FENCS='{"", "8bit", "qp"}',
+                                     SMIMES=KEYS2, CCS='<<"crlf", "utf8", "dots", "eq">>')),
+        ('headers', 'Smime', scfg(MAXP='2', MAXE='0', MAXA='1', ENCS='{"qp"}', SMIMES=KEYS2B,
+                                   HDRS=hdrsets(SHDR, ["plain", "long", "multiline"]))),
+        ('descriptions-names', 'Smime', scfg(MAXP='2', MAXE='1', MAXA='1', ENCS='{"qp", "b64"}', SMIMES=KEYS2,
+                                              PDESCS='{"", "plain", "long", "utf8"}', FDESCS='{"", "long", "utf8"}', FNAMES='{"", "long", "utf8"}')),
+        ('histories', 'Smime', scfg(MAXP='2', MAXE='1', MAXA='1', ENCS='{"qp"}', SMIMES=KEYS2B,
+                                     OPSEQS='{<<a, b, c>> : a \\in {"WriteTo", "Reader", "FailSinkLate"}, b \\in {"Write", "File", "FailSinkMid", "UpdateReader"}, c \\in {"WriteTo", "TempFile"}}')),
+    ],
+    'thorough': [
+        ('shapes-keys-inter', 'Smime', scfg(MAXP='3', MAXE='2', MAXA='2', SMIMES=KEYS4, ROTS='{0, 1, 2, 3}', BOUNDARIES='{"", "fixed"}')),
+        ('encodings', 'Smime', scfg(MAXP='2', MAXE='2', MAXA='2', PENCS='{"", "qp", "b64", "8bit"}', FENCS='{"", "b64", "8bit", "qp"}',
+                                     SMIMES=KEYS2, CCS='<<"crlf", "utf8", "dots", "eq">>')),
+        ('headers-pairs', 'Smime', scfg(MAXP='2', MAXE='1', MAXA='1', ENCS='{"qp", "b64"}', SMIMES=KEYS2B,
+                                         HDRS='{<<[setter |-> s1, val |-> v1], [setter |-> s2, val |-> v2]>> : s1, s2 \\in {%s}, v1, v2 \\in {"plain", "long", "multiline"}}' % ', '.join('"%s"' % x for x in SHDR))),
+        ('descriptions-names', 'Smime', scfg(MAXP='2', MAXE='1', MAXA='1', ENCS='{"qp", "b64", "8bit"}', SMIMES=KEYS4,
+                                              PDESCS='{"", "plain", "long", "utf8", "blanks"}', FDESCS='{"", "long", "utf8", "blanks"}', FNAMES='{"", "long", "utf8", "blanks", "dotted"}')),
+        ('histories', 'Smime', scfg(MAXP='2', MAXE='1', MAXA='1', ENCS='{"qp", "b64"}', SMIMES=KEYS2B,
+                                     OPSEQS='{<<a, b, c, d>> : a, c \\in {"WriteTo", "Reader", "FailSinkLate", "FailSink"}, b, d \\in {"Write", "File", "FailSinkMid", "UpdateReader", "TempFile"}}')),
+    ],
+}
+SDEV = dict(MAXP='2', MAXE='1', MAXA='1', ENCS='{"qp"}', SMIMES='{[key |-> "rsa", inter |-> FALSE]}',
+            HDRS=hdrsets(["genempty", "subject"], ["plain"]), PDESCS='{"", "long"}',
+            OPSEQS='{<<"WriteTo", "WriteTo">>, <<"FailSinkLate", "WriteTo">>}')
+SENSITIVITY = {'C08': [(d, 'Smime', scfg(**dict(SDEV, **{d: 'TRUE'})), 'CounterClean' if d in ('DEV_NoReset', 'DEV_NoResetOnError') else 'Verifies')
+                       for d in ['DEV_CountUnwritten', 'DEV_FoldTopLeaf', 'DEV_NoReset', 'DEV_NoResetOnError',
+                                 'DEV_FreshInnerBoundary', 'DEV_CountSignaturePart']]}
+
+
+STAGES['C02']['quick'].append(
+    ('signed-file-options', 'MimeBuild', cfg(MAXP='1', MAXE='1', MAXA='1', ENCS='{"qp", "b64"}', CCS='<<"crlf">>', SMIMES='{[key |-> "ecdsa", inter |-> FALSE]}',
+                                              FDESCS='{"", "utf8", "crlf"}', FNAMES='{"", "utf8", "quotes"}', PDESCS='{"", "utf8"}')))
+STAGES['C02']['thorough'].append(
+    ('signed-options-product', 'MimeBuild', cfg(MAXP='2', MAXE='1', MAXA='1', ENCS='{"qp", "b64"}', CCS='<<"crlf">>', SMIMES='{[key |-> "ecdsa", inter |-> FALSE]}',
+                                                 PDESCS=DESCCLS, FDESCS=DESCCLS, FNAMES=NAMECLS, HDRS=hdrsets(["subject", "fromname"], ["utf8", "crlf", "long"]))))
+STAGES['C11']['quick'].append(
+    ('signed-histories', 'MimeBuild', cfg(MAXP='2', MAXE='1', MAXA='1', ENCS='{"qp"}', SMIMES=KEYS2, CCS='<<"crlf", "utf8", "size900">>',
+                                           OPSEQS='{<<a, b, c>> : a \\in {"WriteTo", "Reader", "FailSinkLate", "FailSinkMid"}, b \\in {"Write", "File", "FailSinkLate", "UpdateReader"}, c \\in {"WriteTo", "TempFile"}}')))
+STAGES['C11']['thorough'].append(
+    ('signed-histories', 'MimeBuild', cfg(MAXP='2', MAXE='1', MAXA='2', ENCS='{"qp", "b64"}', SMIMES=KEYS2, CCS='<<"crlf", "utf8", "size900">>',
+                                           OPSEQS='{<<a, b, c, d>> : a, c \\in {"WriteTo", "Reader", "FailSinkLate", "FailSinkMid", "FailSink"}, b, d \\in {"Write", "File", "FailSinkLate", "UpdateReader", "TempFile"}}')))
+
+
 def facts(begin):
     p = begin['prog']
     np, ne, na = len(p['parts']), len(p['embeds']), len(p['atts'])
     f = {'np': np, 'ne': ne, 'na': na, 'enc': p['enc'], 'boundary': p['boundary'],
          'no_body': np == 0, 'single_leaf': np + ne + na <= 1,
          'nested_multiparts': (1 if np > 1 else 0) + (1 if ne >= 1 and np + ne > 1 else 0) + (1 if na >= 1 and np + ne + na > 1 else 0) >= 2,
-         'fault': (begin.get('fault') or {}).get('kind', 'none')}
+         'fault': (begin.get('fault') or {}).get('kind', 'none'), 'signed': bool(begin.get('signed')),
+         'key': (p.get('smime') or {}).get('key', '')}
     longish = ('long', 'utf8', 'blanks', 'quotes', 'semi', 'token1000', 'encword')
     for s in p['embeds'] + p['atts']:
         if s['name'] in longish or s['desc'] in longish:
@@ -179,7 +246,8 @@ def facts(begin):
 def signature(begin):
     p = begin['prog']
     return {'shape': [len(p['parts']), len(p['embeds']), len(p['atts'])], 'enc': p['enc'],
-            'fault': (begin.get('fault') or {}).get('kind', 'none'), 'ops': begin.get('ops')}
+            'fault': (begin.get('fault') or {}).get('kind', 'none'), 'ops': begin.get('ops'),
+            'smime': (p.get('smime') or {}).get('key', ''), 'setters': sorted(h['setter'] for h in p.get('hdrs') or [])}
 
 
 RULE = ('every builder program of the bounded design model (counts of parts / embeds / attachments, encodings per message, '
@@ -350,6 +418,14 @@ def mut_rt(evs, what):
     return evs
 
 
+def mut_smime(evs, second=False, **kv):
+    i = _find(evs, lambda e: e['ev'] == 'smime' and e['digest'] and e['sigvalid'] and (not second or e['k'] > 1))
+    if i < 0:
+        return None
+    evs[i].update(kv)
+    return evs
+
+
 def mut_second_leaf(evs):
     j = _find(evs, lambda e: e['ev'] == 'render' and e.get('second'))
     i = _find(evs, lambda e: e['ev'] == 'leaf' and e['eq'], j) if j >= 0 else -1
@@ -360,6 +436,14 @@ def mut_second_leaf(evs):
 
 
 SELFTESTS = {
+    'C08': [('digest differs', lambda evs: mut_smime(evs, digest=False, openssl='skipped'), 'C08_DigestEqual'),
+            ('digest of the second render differs', lambda evs: mut_smime(evs, second=True, digest=False, openssl='skipped'), 'C08_DigestEqual'),
+            ('signature invalid', lambda evs: mut_smime(evs, sigvalid=False, openssl='skipped'), 'C08_SignatureValid'),
+            ('foreign signer certificate', lambda evs: mut_smime(evs, signerleaf=False), 'C08_SignatureValid'),
+            ('intermediate missing', lambda evs: mut_smime(evs, wantinter=True, inter=False), 'C08_IntermediateIncluded'),
+            ('micalg wrong', lambda evs: mut_smime(evs, micalg='sha1'), 'C08_ProtocolMicalg'),
+            ('three parts', lambda evs: mut_smime(evs, nkids=3), 'C08_Wrapper'),
+            ('signed render fails', lambda evs: _mut_out(evs, lambda e: e['ok'], ok=False, err=True), 'C08_RenderSucceeds')],
     'C10': [('parsed subject differs', lambda evs: mut_rt(evs, 'subject'), 'C10_subject'),
             ('parsed part differs', lambda evs: mut_rt(evs, 'part'), 'C10_part'),
             ('parsed attachment differs', lambda evs: mut_rt(evs, 'attbytes'), 'C10_attbytes'),
@@ -390,6 +474,6 @@ SELFTESTS = {
             ('leaf transfer encoding changed', mut_leaf_attr, 'C01_LeafAttributes'),
             ('outer delimiter inside inner multipart', mut_inner_delim, 'C01_BoundaryNesting')],
 }
-VACUITY = {'C01': ['lines', 'leaves', 'trees', 'multiparts'], 'C12': ['faulted', 'outs'], 'C11': ['rerenders'],
+VACUITY = {'C08': ['smimes', 'smimes2', 'leaves'], 'C01': ['lines', 'leaves', 'trees', 'multiparts'], 'C12': ['faulted', 'outs'], 'C11': ['rerenders'],
            'C18': ['lines', 'hdrs'], 'C02': ['lines', 'hdrs'], 'C10': ['rts', 'lines', 'leaves']}
-LEVEL = {'C10': 'exploration', 'C01': 'exploration', 'C02': 'exploration', 'C11': 'model_checking', 'C12': 'fault_enumeration', 'C18': 'exploration'}
+LEVEL = {'C08': 'model_checking', 'C10': 'exploration', 'C01': 'exploration', 'C02': 'exploration', 'C11': 'model_checking', 'C12': 'fault_enumeration', 'C18': 'exploration'}
